@@ -304,6 +304,11 @@ def finish_e1(prop, tier, seed, tasks, results, known, t0, extra_cov=None, extra
                 for e in known:
                     if not kf.match_program(e, r.get("source", t["text"]), t["enabled"]):
                         continue
+                    if e["match"].get("reason_contains") and not any(x in (r.get("reason") or "") for x in e["match"]["reason_contains"]):
+                        continue
+                    if not e["match"].get("needs_traits"):
+                        hit = e  # a defect of the normal form itself: there is no trait to switch off
+                        break
                     # a program-identified finding names the trait that causes it: the violation is attributed to it only
                     # if it disappears when that trait is switched off (otherwise something else is wrong as well)
                     rest = sorted(kf.enabled_set(t["enabled"]) - set(e["match"].get("needs_traits", [])))
